@@ -67,7 +67,7 @@ def normalise(text):
         if m:
             head = m.group(1) + m.group(2)
             r = RET_RE.match(head)
-            if r and not r.group(2).startswith("("):
+            if r and not r.group(2).startswith("(ret:"):
                 head = f"{r.group(1)} -> (ret: {r.group(2)})"
             out.append(head)
             out.append(m.group(1) + "{")
@@ -116,6 +116,8 @@ def tag(annotated, base):
             k += 1
         else:
             tags.append(None)
+            if s.startswith("verus! {") or s.startswith("} // verus!"):
+                continue
             t = strip_strings(s)
             depth += t.count("{") - t.count("}")
             if depth < 0:
